@@ -244,7 +244,7 @@ def explore(run_seed: int, cfg: dict) -> dict:
             if popgen.n_rows(cand) < 2:
                 continue
             if graph is None:
-                graph, _ = compare.capture_graph(popgen.to_frame(cand, types=types), params, functions)
+                graph, _ = compare.full_graph(popgen.to_frame(cand, types=types), params, functions)
                 if graph is None:
                     from gettsim import config
 
@@ -496,7 +496,7 @@ def replay_case(case: dict) -> dict:
     warnings.simplefilter("ignore")
     params, functions = set_up_policy_environment(case["date"])
     types = popgen.input_types()
-    graph, _ = compare.capture_graph(popgen.to_frame({"cols": case["cols"]}, types=types), params, functions)
+    graph, _ = compare.full_graph(popgen.to_frame({"cols": case["cols"]}, types=types), params, functions)
     if graph is None:
         from gettsim import config
 
